@@ -136,6 +136,15 @@ def post(t, op, st):
         exp = p_prev if abs(pnl) < 1e-16 else None
     if exp is not None and not ref.near(s1[root]["price"], exp, 100.0):
         out.append({"rule": "additive_index", "expected": {"price": exp, "prev_price": p_prev, "pnl": pnl, "prev_notional": n_prev, "notional": n_now}, "observed": s1[root]["price"]})
+    # rebalance(weight, child, base) on a par-weighted child: notional = weight x base, whatever
+    # was pending when it was called
+    last = op[1][-1] if op[0] == "seq" else op
+    if last[0] == "rebbase":
+        cname = ">".join(["r"] + list(last[1]) + [last[2]])
+        if cname in s1 and s1[cname]["kind"] == "X" and s1[cname]["cls"] in PAR_KINDS:
+            tgt = last[3] * last[4]
+            if not ref.near(s1[cname]["notl"], tgt, scale):
+                out.append({"rule": "rebalance_to_notional", "expected": {"child": cname, "notional": tgt, "base": last[4], "weight": last[3]}, "observed": s1[cname]["notl"]})
     # Rebalance against notional targets
     if op[0] == "algos" and op[3] == "Rebalance" and "weights" in op[2]:
         node = t.node(op[1])
